@@ -187,6 +187,7 @@ structure Cfg where
   vikja : Bool := true
   odal : Bool := true
   dagaz : Bool := true
+  rcap : Nat := 128          -- capacity of the receipt channel (cmd/main.go)
 deriving Repr, Inhabited
 
 def customMessageMaxSize : Nat := 10240
